@@ -7,11 +7,13 @@ Decided structurally (see DESIGN.md §4 C14):
   D4 R-CAP    instruction append used by the parser is bounded
   D5 R-TERM   arrays handed to a NULL-sentinel consumer are NULL-terminated
   D6 R-WHO    every error record is built with the parser's line number
+  D7 R-LOOP   loop classification, definite divergence / skippable equality exit
+  D8 R-NULL   a parser-state field that a handler frees is overwritten before the handler returns
 """
 from facts import AnalysisBroken, access_path, strip_casts, unparse
 from flow import Facts, single_defs
 from nullflow import NullAnalysis
-from rules_common import rcap, where, returned_constants, is_null_test
+from rules_common import rcap, where, returned_constants, is_null_test, free_then_null
 import loops
 
 
@@ -194,6 +196,19 @@ def run(ctx):
     # ---- D7: loops -------------------------------------------------------
     lf = list(pfuncs) + [db.func("_strtoll", "orcutils"), db.func("strsplit", "orcutils")]
     loops.classify_and_judge(db, lf, rep, rule="D7-R-LOOP")
+
+    # ---- D8: parser state never keeps a freed pointer ---------------------
+    # (a freed parser/program field left in place is freed again by orc_parse_code / orc_program_free,
+    #  or handed to the caller through orc_parse_get_init_function)
+    n8 = 0
+    for f in pfuncs:
+        if f.name in ("orc_parse_error_free", "orc_parse_error_freev"):
+            continue            # destructors: the object itself goes away
+        if f.name == "orc_parse_code":
+            continue            # scope end of the stack parser object (its releases are judged by C16-D1)
+        n8 += free_then_null(f, rep, "D8-FREE-THEN-NULL", ("OrcParser", "OrcProgram"))
+    if n8 < 2:
+        raise AnalysisBroken("only %d releases of parser-state fields found in orcparse.c" % n8)
 
 
 def d5(db, rep, tu):
